@@ -89,6 +89,9 @@ def run_suites(mod, tier, budget_s, seed, prop=None, jobs=16):
                 for cls, case, msg in bad:
                     if cls not in seen_classes:
                         seen_classes[cls] = 0
+                    # keep several witnesses per class: a known finding must not hide a different violation that
+                    # happens to fall into the same class (each witness is matched against the findings file)
+                    if seen_classes[cls] < 60:
                         vio.append({"suite": name, "class": cls, "case": case, "message": msg})
                     seen_classes[cls] += 1
             if nonlocal_flag:
